@@ -9,6 +9,7 @@ import PsutilModel.Base.Proto
 import PsutilModel.Model.C06Gen
 import PsutilModel.Spec.C06
 import PsutilModel.Spec.C06Ext
+import PsutilModel.Spec.C06Hist
 open Lean Psutil Psutil.Proto Psutil.C06
 
 def natOfInt (what : String) (i : Int) : R Nat :=
@@ -298,10 +299,80 @@ def handleProc (j : Json) : R Json := do
   pure (jObj [("files", files), ("model", jObj (mStat ++ mStatus)),
               ("spec", jObj (sStat ++ sThr ++ sStatus))])
 
+/-! histories on one Process object (Model/C06Hist.lean, Spec/C06Hist.lean) -/
+
+def parseGetter (s : String) : R Getter :=
+  match allGetters.find? (fun g => g.pyName == s) with
+  | some g => .ok g
+  | none => .error s!"unknown getter {s}"
+
+def parseProcRec (j : Json) : R Spec.ProcRec := do
+  pure { stat := ← field j "stat" >>= parseStatRec, status := ← field j "status" >>= parseStatusRec }
+
+/-- `"enter"`, `{"leave": bool}`, `{"get": name}`, `{"publish": {"stat": rec, "status": rec}}` -/
+def parseEv (j : Json) : R (Ev Spec.ProcRec) :=
+  match j.getStr? with
+  | .ok "enter" => .ok .enter
+  | .ok s => .error s!"unknown event {s}"
+  | .error _ =>
+    match j.getObjVal? "leave" with
+    | .ok b => do pure (.leave (← asBool b))
+    | .error _ =>
+      match j.getObjVal? "get" with
+      | .ok g => do pure (.get (← asStr g >>= parseGetter))
+      | .error _ =>
+        match j.getObjVal? "publish" with
+        | .ok r => do pure (.publish (← parseProcRec r))
+        | .error _ => .error "event must be \"enter\", {leave}, {get} or {publish}"
+
+def jOut : Out → Json
+  | .bytes b => jBytes b
+  | .int i => jInt i
+  | .st s => jStatusOut s
+  | .cpu c => jCpu c
+  | .obytes o => jOpt jBytes o
+  | .ids t => j3 t
+  | .nat n => jNat n
+  | .pair p => j2 p
+
+def jOutV : Spec.OutV → Json
+  | .bytes b => jBytes b
+  | .int i => jInt i
+  | .str s => Json.str s
+  | .cpu c => jCpuV c
+  | .obytes o => jOpt jBytes o
+  | .ids t => j3 t
+  | .nat n => jNat n
+  | .pair p => j2 p
+
+def wfProcRecB (r : Spec.ProcRec) : Bool :=
+  Spec.isLetter r.stat.state && wfStatusB r.status && wfCtxB r.status
+
+def worldOf (r : Spec.ProcRec) : World := ⟨Spec.renderStat r.stat, Spec.renderStatus r.status⟩
+
+def handleHist (j : Json) : R Json := do
+  let tck ← natF j "tck"
+  let tmap ← field j "tmap" >>= parseTmap
+  let init ← field j "init" >>= parseProcRec
+  let evs ← listF parseEv j "events"
+  let recs := init :: Spec.published evs
+  let jWorld := fun (r : Spec.ProcRec) =>
+    jObj [("stat", jBytes (Spec.renderStat r.stat)), ("status", jBytes (Spec.renderStatus r.status))]
+  -- model: the history run on the rendered files
+  let obs := run hcfg ⟨cfg, tck, tmap⟩ (HState.fresh (worldOf init)) (evs.map (Ev.map worldOf))
+  -- specification: per `get`, the exact reports of the records it may speak about (outside a block: the current one)
+  let ok := recs.all wfProcRecB && tck != 0
+  let allowedV := Spec.allowed (Spec.viewV ⟨tck, tmap⟩) ⟨init, none⟩ evs
+  pure (jObj [("files", jObj [("worlds", jList jWorld recs)]),
+              ("model", jList (jRes jOut) obs),
+              ("spec", if ok then jList (fun vs => jObj [("any_of", jList jOutV vs)]) allowedV else Json.null)])
+
 def handle (_ : Unit) (j : Json) : R (Unit × Json) := do
   let op ← strF j "op"
   if op == "proc" then
     return ((), ← handleProc j)
+  if op == "hist" then
+    return ((), ← handleHist j)
   .error s!"unknown op {op}"
 
 def main : IO Unit := Proto.run () (total handle)
